@@ -35,6 +35,21 @@ type Input struct {
 	BadSel   []any    `json:"bad_sel,omitempty"`
 	Durs     []Dur    `json:"durs,omitempty"`
 	BadHook  []any    `json:"bad_hook,omitempty"`
+	// a SESSION: 2-6 related documents loaded one after another by ONE process (and each of them
+	// alone by a fresh process); the oracle tables above then hold for the whole session
+	Family  string `json:"family,omitempty"`
+	Session []Step `json:"session,omitempty"`
+}
+
+// Step is one load of a session.
+type Step struct {
+	Doc      any    `json:"doc,omitempty"`
+	Raw      []byte `json:"raw,omitempty"`
+	IsRaw    bool   `json:"is_raw,omitempty"`
+	Fault    string `json:"fault,omitempty"`
+	Version  string `json:"version,omitempty"`
+	YamlSeed int64  `json:"yaml_seed,omitempty"`
+	Note     string `json:"note,omitempty"` // how this document relates to the others of the session
 }
 
 // ---- observation ----
@@ -47,8 +62,17 @@ type One struct {
 }
 
 type Obs struct {
-	Json One `json:"json"`
-	Yaml One `json:"yaml"`
+	Json  One       `json:"json"`
+	Yaml  One       `json:"yaml"`
+	Steps []StepObs `json:"steps,omitempty"` // session cases
+}
+
+// StepObs: one load of a session, observed in the session's process and alone in a fresh process.
+type StepObs struct {
+	Json      One `json:"json"`
+	Yaml      One `json:"yaml"`
+	AloneJson One `json:"alone_json"`
+	AloneYaml One `json:"alone_yaml"`
 }
 
 func strsOrEmpty(l []string) []string {
@@ -174,6 +198,9 @@ func loadOne(data []byte, keepText bool) (one One) {
 }
 
 func Run(in Input) Obs {
+	if len(in.Session) > 0 {
+		return runSession(in)
+	}
 	if in.IsRaw {
 		one := loadOne(in.Raw, false)
 		return Obs{Json: one, Yaml: one}
@@ -343,6 +370,9 @@ func coqOne(o One) string {
 }
 
 func Render(in Input, obs *Obs, crash string) core.Case {
+	if len(in.Session) > 0 {
+		return renderSession(in, obs, crash)
+	}
 	c := core.Case{}
 	var o Obs
 	if obs != nil {
@@ -362,9 +392,9 @@ func Render(in Input, obs *Obs, crash string) core.Case {
 	body := fmt.Sprintf("C10_Corr.mkCase %s %s %s %s %s %s", doc, core.CoqBool(in.Fault != ""),
 		core.CoqList(in.BadCron, core.CoqBytes), sels, durs, hooks)
 	if oj == oy {
-		c.Coq = fmt.Sprintf("(let o := %s in\n  %s o o)", oj, body)
+		c.Coq = fmt.Sprintf("(C10_Corr.COne (let o := %s in\n  %s o o))", oj, body)
 	} else {
-		c.Coq = fmt.Sprintf("(%s\n  %s\n  %s)", body, oj, oy)
+		c.Coq = fmt.Sprintf("(C10_Corr.COne (%s\n  %s\n  %s))", body, oj, oy)
 	}
 	c.JSON = o
 	stream := "doc"
@@ -408,7 +438,7 @@ func Render(in Input, obs *Obs, crash string) core.Case {
 }
 
 var Driver = core.Driver[Input, Obs]{
-	Spec: core.Spec{Property: "C10", Imports: []string{"Json", "C10_Model", "C10_Spec", "C10_Corr"}, Corr: "C10_Corr", Triggers: nil, ShrinkKey: "",
-		Rule: "HookConfig.LoadAndValidate under recover on (valid) grammar-generated v1/v0 documents with every option combination, each rendered as JSON and as YAML (both loads dumped into a canonical projection and compared with each other and with the model); (fault) every kind of single-fault mutation of a valid document (must be rejected); (raw) random / truncated / bit-flipped bytes (must not panic; no model); oracle tables for crontabs, label selectors, durations, webhook validity are labelled by the generator; non-trivial = a document, or non-empty raw bytes; distinct = distinct document+fault / distinct bytes"},
+	Spec: core.Spec{Property: "C10", Imports: []string{"Json", "C10_Model", "C10_Spec", "C10_Corr"}, Corr: "C10_Corr", Triggers: nil, ShrinkKey: "session",
+		Rule: "HookConfig.LoadAndValidate under recover on (valid) grammar-generated v1/v0 documents with every option combination, each rendered as JSON and as YAML (both loads dumped into a canonical projection and compared with each other and with the model); (fault) every kind of single-fault mutation of a valid document (must be rejected); (raw) random / truncated / bit-flipped bytes (must not panic; no model); (session) 2-6 RELATED documents loaded one after another by ONE fresh process and each of them alone by its own fresh process: the same document again (other quoting / key order), a valid document and its one-fault variant in both orders, documents whose crontabs (@descriptors, @every, TZ= prefix, 5 and 6 fields), binding names, includes, groups, selectors differ only in letter case or blank placement - every load must meet P, the in-session observation must equal the alone observation (history independence), one document one outcome; the model threads the SchemasCache through the session; oracle tables for crontabs, label selectors, durations, webhook validity are labelled by the generator (session crontab / selector variants: by robfig/cron.v2 and apimachinery themselves, the external oracles, checked against a hand-labelled table); non-trivial = a document, non-empty raw bytes, or a session of at least 2 loads; distinct = distinct document+fault / distinct bytes / distinct list of documents"},
 	Gen: Gen, Run: Run, Render: Render, PerShard: 150, Workers: 8, CaseTimout: 20 * time.Second,
 }
